@@ -1223,7 +1223,24 @@ func checkBatchDisjoint(r *Reporter, p *Prog) {
 			return false
 		}
 		_, missAdd := f.reach(f.entry(), &searchOpts{AvoidNode: isAdd}, func(pt Point, atExit bool) bool { return atExit })
-		_, missRem := f.reach(f.entry(), &searchOpts{AvoidNode: isRem}, func(pt Point, atExit bool) bool { return atExit })
+		// (nothing has to be removed on an edge on which the opposite map is known to be empty)
+		emptyOpp := map[Edge]bool{}
+		f.forEachEdgeFact(func(e Edge, b *cfg.Block, ft fact) {
+			rel, ok := relOf(ft.Atom)
+			if !ok {
+				return
+			}
+			if !ft.Pol {
+				rel = negRel(rel)
+			}
+			isLenOpp := func(k string) bool {
+				return strings.HasPrefix(k, "len(") && strings.HasSuffix(k, "."+row.remove+")")
+			}
+			if (rel.Op == "==" && ((isLenOpp(rel.L) && rel.R == "0") || (isLenOpp(rel.R) && rel.L == "0"))) || (rel.Op == "<=" && isLenOpp(rel.L) && rel.R == "0") {
+				emptyOpp[e] = true
+			}
+		})
+		_, missRem := f.reach(f.entry(), &searchOpts{AvoidNode: isRem, AvoidEdge: func(e Edge) bool { return emptyOpp[e] }}, func(pt Point, atExit bool) bool { return atExit })
 		switch {
 		case missAdd:
 			r.Fail("batch/disjoint", key, f.P.posStr(f.Body.Pos()), "a path returns without recording the operation in "+row.add)
